@@ -44,6 +44,25 @@ pub fn pool() -> Vec<(String, String)> {
     v.push(("cast_stmt".into(), "int(a);".into()));
     v.push(("neg_stmt".into(), "-a;".into()));
     v.push(("index_stmt".into(), "m[0];".into()));
+    // statements that end with `}` without being a compound statement, and statements that
+    // start with every kind of token an expression can start with
+    v.push(("block_stmt".into(), "{ a = 1; }".into()));
+    v.push(("block_gate".into(), "{ h r; }".into()));
+    v.push(("block_empty".into(), "{ }".into()));
+    v.push(("box_stmt".into(), "box { h r; }".into()));
+    v.push(("box_designator".into(), "box [ 10 ns ] { h r; }".into()));
+    v.push(("paren_binary_stmt".into(), "(a + b);".into()));
+    v.push(("not_stmt".into(), "!a;".into()));
+    v.push(("tilde_stmt".into(), "~a;".into()));
+    v.push(("float_stmt".into(), "1.5;".into()));
+    v.push(("bool_stmt".into(), "true;".into()));
+    v.push(("bits_stmt".into(), "\"01\";".into()));
+    v.push(("timing_stmt".into(), "10 ns;".into()));
+    v.push(("hw_stmt".into(), "$0;".into()));
+    v.push(("measure_arrow".into(), "measure r -> k;".into()));
+    v.push(("call_stmt".into(), "f1(a, b);".into()));
+    v.push(("set_stmt".into(), "{1, 2};".into()));
+    v.push(("switch_both".into(), "switch (a) { case 1, 2 { a = 1; } default { a = 2; } }".into()));
     v
 }
 
